@@ -12,12 +12,15 @@ use crate::errors::DurationError;
 use crate::parser::Token;
 use crate::{
     Duration, Epoch, HifitimeError, ParsingError, TimeScale, Unit, DAYS_PER_YEAR_NLD,
-    HIFITIME_REF_YEAR, NANOSECONDS_PER_MICROSECOND, NANOSECONDS_PER_MILLISECOND,
-    NANOSECONDS_PER_SECOND_U32,
+    HIFITIME_REF_YEAR, NANOSECONDS_PER_DAY, NANOSECONDS_PER_HOUR, NANOSECONDS_PER_MINUTE,
+    NANOSECONDS_PER_SECOND, NANOSECONDS_PER_SECOND_U32,
 };
 use core::str::FromStr;
 
-use super::div_rem_f64;
+/// Days from 0000-03-01 to the hifitime reference date 1900-01-01 (proleptic Gregorian calendar).
+const DAYS_FROM_0000_03_01_TO_REF: i128 = 693_901;
+/// Days in one 400-year Gregorian era.
+const DAYS_PER_ERA: i128 = 146_097;
 
 impl Epoch {
     pub(crate) fn compute_gregorian(
@@ -25,118 +28,45 @@ impl Epoch {
         time_scale: TimeScale,
     ) -> (i32, u8, u8, u8, u8, u8, u32) {
         let duration_wrt_ref = duration + time_scale.gregorian_epoch_offset();
-        let sign = duration_wrt_ref.signum();
-        let (days, hours, minutes, seconds, milliseconds, microseconds, nanos) = if sign < 0 {
-            // For negative epochs, the computation of days and time must account for the time as it'll cause the days computation to be off by one.
-            let (_, days, hours, minutes, seconds, milliseconds, microseconds, nanos) =
-                duration_wrt_ref.decompose();
 
-            // Recompute the time since we count backward and not forward for negative durations.
-            let time = Duration::compose(
-                0,
-                0,
-                hours,
-                minutes,
-                seconds,
-                milliseconds,
-                microseconds,
-                nanos,
-            );
+        // Whole days since 1900-01-01 and nanoseconds into that day. Euclidean division floors, so
+        // instants before the reference count the day backward and the time of day forward.
+        let total_ns = duration_wrt_ref.total_nanoseconds();
+        let days = total_ns.div_euclid(i128::from(NANOSECONDS_PER_DAY));
+        let ns_of_day = total_ns.rem_euclid(i128::from(NANOSECONDS_PER_DAY)) as u64;
 
-            // Compute the correct time.
-            let (_, _, hours, minutes, seconds, milliseconds, microseconds, nanos) =
-                (24 * Unit::Hour - time).decompose();
-
-            let days_f64 = if time > Duration::ZERO {
-                -((days + 1) as f64)
-            } else {
-                -(days as f64)
-            };
-
-            (
-                days_f64,
-                hours,
-                minutes,
-                seconds,
-                milliseconds,
-                microseconds,
-                nanos,
-            )
+        // Civil date of that day count in the proleptic Gregorian calendar, exact for every day:
+        // count from 0000-03-01 so that the leap day is the last day of the (shifted) year and of
+        // each 400-year era of 146_097 days (H. Hinnant, "chrono-Compatible Low-Level Date Algorithms").
+        let z = days + DAYS_FROM_0000_03_01_TO_REF;
+        let era = z.div_euclid(DAYS_PER_ERA);
+        let day_of_era = z.rem_euclid(DAYS_PER_ERA); // [0, 146_096]
+        let year_of_era =
+            (day_of_era - day_of_era / 1_460 + day_of_era / 36_524 - day_of_era / 146_096) / 365; // [0, 399]
+        let day_of_year = day_of_era - (365 * year_of_era + year_of_era / 4 - year_of_era / 100); // [0, 365], from 1 March
+        let month_from_march = (5 * day_of_year + 2) / 153; // [0, 11]
+        let day = day_of_year - (153 * month_from_march + 2) / 5 + 1; // [1, 31]
+        let month = if month_from_march < 10 {
+            month_from_march + 3
         } else {
-            // For positive epochs, the computation of days and time is trivally the decomposition of the duration.
-            let (_, days, hours, minutes, seconds, milliseconds, microseconds, nanos) =
-                duration_wrt_ref.decompose();
-            (
-                days as f64,
-                hours,
-                minutes,
-                seconds,
-                milliseconds,
-                microseconds,
-                nanos,
-            )
-        };
+            month_from_march - 9
+        }; // [1, 12]
+        let year = year_of_era + era * 400 + if month <= 2 { 1 } else { 0 };
 
-        let (mut year, mut days_in_year) = div_rem_f64(days, DAYS_PER_YEAR_NLD);
-        year += HIFITIME_REF_YEAR;
+        let hours = ns_of_day / NANOSECONDS_PER_HOUR;
+        let minutes = ns_of_day % NANOSECONDS_PER_HOUR / NANOSECONDS_PER_MINUTE;
+        let seconds = ns_of_day % NANOSECONDS_PER_MINUTE / NANOSECONDS_PER_SECOND;
+        let nanos = ns_of_day % NANOSECONDS_PER_SECOND;
 
-        // Base calculation was on 365 days, so we need to remove one day per leap year
-        if year >= HIFITIME_REF_YEAR {
-            for y in HIFITIME_REF_YEAR..year {
-                if is_leap_year(y) {
-                    days_in_year -= 1.0;
-                }
-            }
-            if days_in_year < 0.0 {
-                // We've underflowed the number of days in a year because of the leap years
-                year -= 1;
-                days_in_year += DAYS_PER_YEAR_NLD;
-                // If we had incorrectly removed one day of the year in the previous loop, fix it here.
-                if is_leap_year(year) {
-                    days_in_year += 1.0;
-                }
-            }
-        } else {
-            for y in year..HIFITIME_REF_YEAR {
-                if is_leap_year(y) {
-                    days_in_year += 1.0;
-                }
-            }
-            // Check for greater than or equal because the days are still zero indexed here.
-            if (days_in_year >= DAYS_PER_YEAR_NLD && !is_leap_year(year))
-                || (days_in_year >= DAYS_PER_YEAR_NLD + 1.0 && is_leap_year(year))
-            {
-                // We've overflowed the number of days in a year because of the leap years
-                year += 1;
-                days_in_year -= DAYS_PER_YEAR_NLD;
-            }
-        }
-
-        let cumul_days = if is_leap_year(year) {
-            CUMULATIVE_DAYS_FOR_MONTH_LEAP_YEARS
-        } else {
-            CUMULATIVE_DAYS_FOR_MONTH
-        };
-
-        let month_search = cumul_days.binary_search(&(days_in_year as u16));
-        let month = match month_search {
-            Ok(index) => index + 1, // Exact month found, add 1 for month number (indexing starts from 0)
-            Err(insertion_point) => insertion_point, // We're before the number of months, so use the insertion point as the month number
-        };
-
-        // Directly compute the day from the computed month, and ensure that day counter is one indexed.
-        let day = days_in_year - cumul_days[month - 1] as f64 + 1.0;
-
+        // The year is within +/- 3.3 million for every representable duration, so every cast fits.
         (
-            year,
+            year as i32,
             month as u8,
             day as u8,
             hours as u8,
             minutes as u8,
             seconds as u8,
-            (nanos
-                + microseconds * NANOSECONDS_PER_MICROSECOND
-                + milliseconds * NANOSECONDS_PER_MILLISECOND) as u32,
+            nanos as u32,
         )
     }
 
